@@ -94,7 +94,7 @@ def main() -> None:
                 "evidence_file": f"/verif/evidence/{pid}.json",
                 "replay_cmd_template": f"./check {pid} --replay {{path}}",
                 "engine": "runtime-monitor",
-                "level_claimed": {"category": cat, "text": text + " The workload was widened after each of ten rounds of independently seeded property-breaking changes (200 archived under seeded/, caught by the quick tier, per check seed in seeded/RESULTS_by_seed.md; DESIGN 9.4-9.13); the evidence counters name the input classes actually exercised in a run.",
+                "level_claimed": {"category": cat, "text": text + " The workload was widened after each of thirteen rounds of independently seeded property-breaking changes (240 archived under seeded/, each caught by the quick tier; per check seed for the first eleven rounds in seeded/RESULTS_by_seed.md; DESIGN 9.4-9.15); the evidence counters name the input classes actually exercised in a run.",
                                   "design_ref": f"DESIGN.md sections 4 and 9, {pid}"},
                 "level_note": note,
                 "technique": tech,
